@@ -803,6 +803,20 @@ def translate_client_enqueue(srv):
         return None, str(e)
 
 
+def shared_state(srcs):
+    """state that lives OUTSIDE the objects: `thread_local!`, `static mut`, `lazy_static!`, statics with interior
+    mutability. The model treats connections, servers, routers, responses and header sets as independent values; that is
+    only faithful if the source keeps no such state (immutable `static` tables are fine). Returns the offending lines."""
+    pats = [r"\bthread_local!", r"\bstatic\s+mut\b", r"\blazy_static!",
+            r"\bstatic\s+\w+\s*:\s*[^=;]*\b(?:Mutex|RwLock|RefCell|Cell|UnsafeCell|Atomic\w+|OnceCell|OnceLock|LazyLock|LazyCell|Lazy|Once)\b"]
+    found = []
+    for name, text in srcs:
+        for ln in text.split("\n"):
+            if any(re.search(p_, ln) for p_ in pats):
+                found.append(f"{name}: {ln.strip()[:100]}")
+    return found
+
+
 def main():
     conn, srv, common, headers, resp, req = (read(x) for x in
                                              ("connection.rs", "server.rs", "common/mod.rs", "common/headers.rs", "response.rs", "request.rs"))
@@ -882,6 +896,13 @@ def main():
     preds.append(("pendingWrite", "Conn0 → Bool", "c", translate_pred(conn, "HttpConnection<T>", "pending_write", {
         "self.response_buffer.is_some()": "c.respBuf.isSome", "self.response_buffer.is_none()": "c.respBuf.isNone",
         "self.response_queue.is_empty()": "c.respQ.isEmpty"})))
+
+    router = read("router.rs")
+    ascii_ = read("common/ascii.rs")
+    librs = read("lib.rs")
+    shared = shared_state([("connection.rs", conn), ("server.rs", srv), ("common/mod.rs", common), ("common/headers.rs", headers),
+                           ("response.rs", resp), ("request.rs", req), ("router.rs", router), ("common/ascii.rs", ascii_), ("lib.rs", librs)])
+    items.append(("sharedState", "List String", "[" + ", ".join(lean_str(x) for x in shared) + "]"))
 
     writer, why = translate_writer(resp)
     lines = ["/-",
